@@ -6,7 +6,7 @@
    with `_refuted` witnesses: open finding D51 (YBR_FULL stored unconverted,
    converted to RGB on decoding). *)
 From Coq Require Import String ZArith List Bool.
-From HD Require Import Base.Val C07_Model C07_Proofs C07_Proofs_Table.
+From HD Require Import Base.Val C07_Model C07_Proofs C07_Proofs_Table C07_Proofs_RLE C07_Proofs_Ext.
 Import ListNotations.
 Open Scope Z_scope.
 
@@ -173,3 +173,147 @@ Theorem C07_encode_native_length : forall p f, p_balloc p <> 1 -> 1 <= p_dsize p
   Z.of_nat (length (encode_native p f)) = Z.of_nat (length f) * p_dsize p.
 Proof. exact encode_native_length. Qed.
 Print Assumptions C07_encode_native_length.
+
+(* --- RLE Lossless: the codec itself (no premise) ------------------------------ *)
+(* one byte segment (PackBits rows, odd length padded): decoding inverts encoding,
+   all byte strings, all row widths *)
+Theorem C07_rle_segment_roundtrip : forall cols src, 1 <= cols ->
+  rle_decode_segment (rle_encode_segment cols src) = src.
+Proof. exact rle_segment_roundtrip. Qed.
+Print Assumptions C07_rle_segment_roundtrip.
+
+(* FULL statement: the same without [open_gap p = false]; false for the current
+   code (witness below: D51, YBR_FULL stored unconverted, converted on decoding). *)
+Theorem C07_rle_roundtrip_partial : forall p f bs,
+  p_ts p = TRLE ->
+  encode_rle default_tables p f = Ok bs ->
+  open_gap p = false ->
+  Z.of_nat (length f) = npix p ->
+  values_fit p f ->
+  decode_rle p bs = Ok (DArr (out_shape p) f).
+Proof. exact rle_roundtrip. Qed.
+Print Assumptions C07_rle_roundtrip_partial.
+
+Theorem C07_rle_roundtrip_refuted_ybr : exists p f bs,
+  p_ts p = TRLE /\ encode_rle default_tables p f = Ok bs /\ Z.of_nat (length f) = npix p
+  /\ values_fit p f /\ decode_rle p bs = Ok (DColor f).
+Proof. exact rle_roundtrip_refuted_ybr. Qed.
+Print Assumptions C07_rle_roundtrip_refuted_ybr.
+
+(* non-vacuity: a signed 12-in-16-bit frame and an RGB frame are accepted, and the
+   stream really is compressed (a run of equal pixels costs two bytes per plane) *)
+Example C07_rle_roundtrip_nonvacuous :
+  let p := mkP TRLE 2 3 false 0 16 12 (Some MONO2) 1 None KInt 2 in
+  let f := [-2048; 2047; 0; -1; -1; -1] in
+  let q := mkP TRLE 1 4 true 3 8 8 (Some RGB) 0 (Some 1) KUInt 1 in
+  let g := [9; 8; 7; 9; 8; 7; 9; 8; 7; 9; 8; 7] in
+  (exists bs, encode_rle default_tables p f = Ok bs) /\ open_gap p = false
+  /\ Z.of_nat (length f) = npix p /\ values_fit p f
+  /\ encode_rle default_tables q g
+     = Ok ([3; 0; 0; 0; 64; 0; 0; 0; 66; 0; 0; 0; 68; 0; 0; 0] ++ repeat 0 48 ++ [253; 9; 253; 8; 253; 7])
+  /\ decode_rle q ([3; 0; 0; 0; 64; 0; 0; 0; 66; 0; 0; 0; 68; 0; 0; 0] ++ repeat 0 48 ++ [253; 9; 253; 8; 253; 7])
+     = Ok (DArr [1; 4; 3] g).
+Proof.
+  cbv zeta. split; [eexists; vm_compute; reflexivity|]. split; [reflexivity|]. split; [reflexivity|].
+  split; [unfold values_fit; repeat constructor; cbn; intuition discriminate|].
+  split; vm_compute; reflexivity.
+Qed.
+Print Assumptions C07_rle_roundtrip_nonvacuous.
+
+(* --- frame [index] of a bit-packed stream, any number of samples per pixel ---- *)
+Theorem C07_decode_index_window_samples : forall rows cols samples frames i,
+  1 <= rows -> 1 <= cols -> 1 <= samples ->
+  (forall f, In f frames -> Z.of_nat (length f) = rows * cols * samples /\ bits01 f) ->
+  (i < length frames)%nat ->
+  decode_bits rows cols samples (Z.of_nat i)
+    (frame_bytes (rows * cols * samples) (Z.of_nat i) (pack_bits_nopad (concat frames)))
+  = Ok (DArr (if 1 <? samples then [rows; cols; samples] else [rows; cols]) (nth i frames [])).
+Proof. exact decode_index_window_samples. Qed.
+Print Assumptions C07_decode_index_window_samples.
+
+Example C07_decode_index_window_samples_nonvacuous :
+  let frames := [[1;0;1; 0;1;1; 1;1;0]; [0;0;1; 1;0;0; 0;1;0]; [1;1;1; 0;0;0; 1;0;1]] in
+  decode_bits 1 3 3 2 (frame_bytes 9 2 (pack_bits_nopad (concat frames)))
+  = Ok (DArr [1; 3; 3] [1;1;1; 0;0;0; 1;0;1]).
+Proof. vm_compute. reflexivity. Qed.
+Print Assumptions C07_decode_index_window_samples_nonvacuous.
+
+(* --- native word frames: what decode (encode f) is, without a range premise ---- *)
+Theorem C07_native_words_decode_encode : forall p f bs,
+  native_ts p ->
+  encode_frame default_tables p f = Ok bs ->
+  Z.of_nat (length f) = npix p ->
+  p_dsize p <= 8 -> p_balloc p <> 1 ->
+  (spp p = 3 -> p_pi p <> Some YBR_FULL) ->
+  decode_native p 0 bs = Ok (DArr (out_shape p) (map (stored_view p) f)).
+Proof. exact native_words_decode_encode. Qed.
+Print Assumptions C07_native_words_decode_encode.
+
+(* the Bits Stored range is exactly the set of contents that round-trip *)
+Theorem C07_native_roundtrip_iff : forall p f bs,
+  native_ts p ->
+  encode_frame default_tables p f = Ok bs ->
+  Z.of_nat (length f) = npix p ->
+  p_dsize p <= 8 -> p_balloc p <> 1 ->
+  (spp p = 3 -> p_pi p <> Some YBR_FULL) ->
+  (decode_native p 0 bs = Ok (DArr (out_shape p) f) <-> values_fit p f).
+Proof. exact native_roundtrip_iff. Qed.
+Print Assumptions C07_native_roundtrip_iff.
+
+(* non-vacuity of the "only if" direction: an accepted uint16 frame with content
+   above the 12 stored bits is read back as other numbers *)
+Example C07_native_roundtrip_iff_nonvacuous :
+  let p := mkP TExplicit 1 2 false 0 16 12 (Some MONO2) 0 None KUInt 2 in
+  encode_frame default_tables p [4096; 4095] = Ok [0; 16; 255; 15]
+  /\ decode_native p 0 [0; 16; 255; 15] = Ok (DArr [1; 2] [0; 4095])
+  /\ ~ values_fit p [4096; 4095].
+Proof.
+  cbv zeta. split; [reflexivity|]. split; [reflexivity|].
+  unfold values_fit. intros H. inversion H as [|x l H1 H2]. cbn in H1. destruct H1 as [_ H1]. compute in H1. discriminate H1.
+Qed.
+Print Assumptions C07_native_roundtrip_iff_nonvacuous.
+
+(* --- the property sentence over ALL lossless transfer syntaxes ------------------- *)
+(* FULL statement: without [open_gap p = false]; false for the current code (D51,
+   witnesses C07_native_roundtrip_refuted_ybr / C07_rle_roundtrip_refuted_ybr).
+   Only premise: the JPEG-LS (NEAR = 0) and JPEG 2000 Lossless codecs. *)
+Theorem C07_lossless_roundtrip_partial :
+  forall (codec_encode : params -> list Z -> option (list Z))
+         (codec_decode : params -> list Z -> res decoded),
+  (forall p f bs,
+     p_ts p = TJLS \/ p_ts p = TJ2KL ->
+     accepts default_tables p (list_min f) (list_max f) = true ->
+     Z.of_nat (length f) = npix p -> values_fit p f ->
+     codec_encode p f = Some bs -> codec_decode p bs = Ok (DArr (out_shape p) f)) ->
+  forall p f bs,
+    lossless_ts p ->
+    encode_any codec_encode default_tables p f = Ok bs ->
+    open_gap p = false ->
+    Z.of_nat (length f) = npix p -> values_fit p f -> p_dsize p <= 8 ->
+    decode_any codec_decode default_tables p bs = Ok (DArr (out_shape p) f).
+Proof. exact lossless_roundtrip. Qed.
+Print Assumptions C07_lossless_roundtrip_partial.
+
+Theorem C07_refusal_any :
+  forall (codec_encode : params -> list Z -> option (list Z)) p f e,
+  check default_tables p (list_min f) (list_max f) = Some e ->
+  encode_any codec_encode default_tables p f = Err e.
+Proof. exact refusal_any. Qed.
+Print Assumptions C07_refusal_any.
+
+(* non-vacuity: with a codec that never produces bytes the premise holds trivially,
+   and the theorem still speaks about native and RLE frames *)
+Example C07_lossless_roundtrip_nonvacuous :
+  let ce := fun (_ : params) (_ : list Z) => @None (list Z) in
+  let p := mkP TRLE 1 3 false 0 8 8 (Some MONO1) 0 None KUInt 1 in
+  let q := mkP TImplicit 1 3 false 0 8 8 (Some MONO1) 0 None KUInt 1 in
+  lossless_ts p /\ lossless_ts q
+  /\ (exists bs, encode_any ce default_tables p [7; 7; 9] = Ok bs)
+  /\ encode_any ce default_tables q [7; 7; 9] = Ok [7; 7; 9]
+  /\ open_gap p = false /\ values_fit p [7; 7; 9].
+Proof.
+  cbv zeta. split; [right; right; now left|]. split; [now left|].
+  split; [eexists; vm_compute; reflexivity|]. split; [reflexivity|]. split; [reflexivity|].
+  unfold values_fit. repeat constructor; cbn; intuition discriminate.
+Qed.
+Print Assumptions C07_lossless_roundtrip_nonvacuous.
